@@ -825,6 +825,7 @@ def object_streams(ctx: Ctx, book: Book, cover: Cover, pool: dict, by_value: dic
 
     # -- source 2: the factory methods
     skipped = []
+    together: dict[bool, list] = {False: [], True: []}  # AS_PATH objects / AGGREGATOR objects the factories gave
     for cls, name, fn, sig in R.factories():
         n = 0
         for kw, res in R.factory_calls(cls, name, fn, sig, rng, extra_factory):
@@ -840,6 +841,8 @@ def object_streams(ctx: Ctx, book: Book, cover: Cover, pool: dict, by_value: dic
                 do_nlri(res, 'factory', origin)
             elif R.is_wire_attribute(res):
                 do_attr(res, 'factory', origin)
+                if type(res).__name__ in ('ASPath', 'AS2Path', 'Aggregator') and len(together[type(res).__name__ == 'Aggregator']) < 40:
+                    together[type(res).__name__ == 'Aggregator'].append((res, origin))
                 if type(res).__name__ != 'AS4Path' and R.encoding_depends_on_asn4(res):
                     # AS_PATH, AGGREGATOR: a 2-octet session carries them as AS_TRANS + AS4_PATH / AS4_AGGREGATOR
                     # (RFC 6793 4.2.2) and the receiver reconstructs them (4.2.3): the same law, on that session
@@ -865,6 +868,25 @@ def object_streams(ctx: Ctx, book: Book, cover: Cover, pool: dict, by_value: dic
         if n == 0:
             skipped.append(f'{cls.__name__}.{name}')
     ctx.extra['factories_not_callable_by_type'] = skipped
+
+    # -- source 2b: AS_PATH and AGGREGATOR in one UPDATE (their decoders look at each other's AS4_ companions)
+    for path, po in together[False]:
+        for agg, ao in together[True]:
+            for asn4 in (True, False):
+                ctx.evaluations += 1
+                ctx.count('attr:together')
+                try:
+                    fs = R.together_laws([path, agg], asn4)
+                except Exception as e:  # noqa: BLE001
+                    fs = [R.LawFail('together:harness', R.err_name(e))]
+                if fs and fs[0].law == 'pack-raises':
+                    ctx.count('attr:together:not-sendable-alone')  # the single-attribute law already says so
+                    continue
+                if fs:
+                    f = fs[0]
+                    book.add('roundtrip-law', 'ASPath+Aggregator', f.law, 'asn4' if asn4 else 'asn2', f.data, f'factory: {f.detail}', {'stream': 'attr-together', 'data': hx(f.data), 'asn4': asn4, 'origin': {'path': po, 'aggregator': ao}})
+                else:
+                    ctx.nontrivial(['together', str(path), str(agg), asn4])
 
     # -- source 3: decoding (captures shipped with the project; what the encoder produced is re-decoded inside the laws)
     message_stream(ctx, book, cover, do_nlri, do_attr)
